@@ -98,7 +98,7 @@ def result_case(c, k, client, methods, sm, pkg, loop, is_async, RESULT, expected
     pos, state, w, kind = c["pos"], c["state"], c["w"], c["kind"]
     try:
         RESULT["value"] = intended_wire(w, state, kind)
-        opname = {"result": "OpR_", "result_nested": "OpRN_", "result_fragment": "OpRF_"}[pos] + k
+        opname = {"result": "OpR_", "result_nested": "OpRN_", "result_fragment": "OpRF_", "result_union": "OpRU_"}[pos] + k
         meth = getattr(client, methods[opname.replace("_", "").lower()])
         del sm.LOG[:]
         try:
@@ -110,7 +110,16 @@ def result_case(c, k, client, methods, sm, pkg, loop, is_async, RESULT, expected
             rec["call"] = f"{type(ex).__name__}: {ex}"[:300]
             rec["present"] = None
             return rec
-        holder = r.res.child if pos == "result_nested" else r.res
+        if pos == "result_union":
+            top = [n for n, f in type(r).model_fields.items() if (f.alias or n) == "resU"]
+            lst = getattr(r, top[0])
+            if not (isinstance(lst, list) and len(lst) == 2 and lst[1] is None):
+                rec["call"] = f"union list not delivered as returned: {lst!r}"[:300]
+                rec["present"] = None
+                return rec
+            holder = lst[0]
+        else:
+            holder = r.res.child if pos == "result_nested" else r.res
         attr = [n for n, f in type(holder).model_fields.items() if (f.alias or n) == f"r_{k}"]
         got = getattr(holder, attr[0]) if attr else "@missing"
         plog = [x[1] for x in sm.LOG if x[0] == "parse"]
@@ -193,6 +202,8 @@ def main():
     def resolver(src, info, **kw):
         if info.field_name == "res":
             return {}
+        if info.field_name == "resU":
+            return [{"__typename": "RT2"}, None]
         if info.field_name == "child":
             return {}
         if info.field_name == "pad":
